@@ -76,3 +76,16 @@ claim("C20",
       "must-hold lockset dataflow over every function of the module with requires-lock summaries over static callers and closure creation sites, receiver-mutation summaries, critical-section structure, provenance of returned guarded containers (go/ssa)",
       "Decides monitor discipline on every path: each of the guarded members (recomputed per run; eleven today) is accessed only under its monitor's lock, exclusively for writes — including writes made through a guarded pointer by a mutating method; locks are released on every path and never re-acquired by a callee; no check-then-act across a lock gap without re-check; no live guarded map/slice leaves its monitor; plus the atomic winner-takes-callback protocol of the in-flight table. Necessary conditions of race freedom; no interleaving is executed.",
       "Not decided: gotomic internals, logical races outside lock discipline, channel protocols; third-party objects (gorilla websocket.Conn) are contracts.")
+
+claim("C01",
+      "visibility taint rule on subscription queries, provenance in the writer's log branch, branch-condition non-interference and visit-once path rules on the trie walk, per-recipient path table of the fan-out, merge decision table (go/ssa)",
+      "Decides structural necessary conditions only: removed subscriptions never become recipients; recipients are resolved from the topic of the very log entry fanned out; the trie walk's descent decisions never depend on other entries' data and no child is acted upon twice in one step; each registered recipient gets exactly one PUBLISH (none if unregistered); an unsubscribe that overtakes its subscribe is kept. The core of the property — MQTT matching semantics over all topic × filter pairs — is NOT decided.",
+      "Not decided: which filters match which topics (parent-level '#', empty levels), order/history independence as values.")
+claim("C06",
+      "per-recipient path table of the fan-out, decision table of the outbound in-flight callbacks (shared with C03), lockset on the pool, sort.Search predicate shape (go/ssa)",
+      "Decides only the ownership discipline around the pool: each identifier taken is bound to exactly one arming call and released if arming fails; every terminal path of every in-flight callback releases it exactly once, non-terminal paths never; the free list is touched only under the pool mutex; the pool's binary search predicate is monotone. The allocator's interval arithmetic (uniqueness, idempotent release, exhaustion, panic-freedom) is NOT decided.",
+      "Not decided: allocator semantics over Get/Put histories (value-level); see DESIGN.md §6.")
+claim("C07",
+      "scenario-row path table of the publish worker with event order, loop matcher and provenance in the subscribe arm, visibility taint on Topics.Get, provenance of the outgoing retain flag, non-interference of the retained trie, merge decision table (go/ssa)",
+      "Decides on every path: retain∧empty clears, retain∧payload stores, ¬retain touches nothing, the flag is cleared between storing and distributing; after SUBACK every subscribed filter is looked up and each message found is sent to this session only with that filter's QoS, the loop ending early only with an error; cleared topics are never listed; the outgoing copy takes its flag from the source; the retained trie's descent ignores stored data; a clear that overtakes its publish is kept. Necessary conditions; matching semantics are not decided.",
+      "Not decided: trie match semantics over all filters, 'most recent' as timestamp order (C08), exactly-once per topic across nodes.")
